@@ -5,6 +5,8 @@ R20.1 guard-before-narrowing (A7): every unchecked usize -> StorageT narrowing (
       the vector's last growth and dominates every normal exit.
 R20.2 state-count guards in pager_stategraph / StateGraph::new / StateTable::new
 R20.3 lexer rule ids come from a checked conversion whose failure panics
+R20.4 the iteration order of hash containers whose keys contain StorageT values (fixed hasher, but the keys hash differently
+      per width) reaches no ordered result: otherwise numbering / table contents differ between widths that accept the grammar
 """
 from mirlib import *
 
@@ -19,8 +21,9 @@ META = {
                    'A short table lists operands trusted for a stated reason (class P3). Anything else is reported. '
                    'R20.2/R20.3 check the existence and placement of the state-count guards and the checked lexer id '
                    'conversion. Together these are the necessary condition for "no width ever yields wrapped-around sizes '
-                   'or indices". NOT decided: equality of results across widths as such (follows from the casts being '
-                   'value-preserving plus determinism, C15).',
+                   'or indices". R20.4 decides one further necessary condition of "the same numbering and table contents in all '
+                   'widths": no width-dependent hash order (FNV maps keyed by StorageT values) reaches an ordered result. NOT '
+                   'decided: equality of results across widths beyond these two conditions.',
 }
 
 CRATES = ['cfgrammar', 'lrtable', 'lrpar', 'lrlex']
@@ -37,15 +40,8 @@ TRUSTED = [
     ('cfgrammar::yacc::grammar::YaccGrammar::new_from_ast_with_validity_info', 'pidxs',
      'AST production index: < ast.prods.len(), and the production vector starts with ast.prods.len() entries and only grows, '
      'so it is bounded by the guarded final production count'),
-    ('lrtable::pager::pager_stategraph', 'as_storaget',
-     'state indices of the usize-typed graph returned by gc: indices into the surviving-state vector, whose length is guarded'),
-    ('cfgrammar::yacc::grammar::rule_max_costs', 'enumerate', 'index into a Vec sized from rules_len() of a constructed grammar'),
-    ('cfgrammar::yacc::grammar::rule_min_costs', 'enumerate', 'index into a Vec sized from rules_len() of a constructed grammar'),
-    ('lrtable::statetable::StateTable::new', 'iter_set_bits', 'bit index of an item context, which is exactly tokens_len() bits long'),
-    ('lrtable::statetable::StateTable::new', 'enumerate-closed-states', 'index of a closed state of an already constructed StateGraph (its constructor asserts the bound)'),
     ('lrtable::statetable::StateTable::decode', 'arithmetic Shr',
      'payload of an action cell, which encode() produced from a StIdx/PIdx value of the same width'),
-    ('lrtable::stategraph::StateGraph::pp', 'enumerate', 'bit index of an item context of a constructed graph (pretty-printer)'),
 ]
 
 
@@ -415,7 +411,69 @@ def r203(facts, res):
             res.bad(R, 'lrlex-unchecked/%s' % strip_generics(b.path), loc_of(b, bb), 'unchecked narrowing in lrlex')
 
 
+# R20.4 ---------------------------------------------------------------------------------------------------------------
+# Hash containers with a FIXED hasher (FNV) are deterministic from run to run - C15 does not count them as order sources - but
+# when their KEY type contains StorageT the hash of a key, and with it the iteration order, depends on the storage width
+# (u8 hashes one byte, u16 two).  Whatever such an iteration order reaches therefore differs between widths.
+WIDTH_EXC = [
+    # (function, needles every excused problem must contain one of, reason) - an exception names EFFECTS, never the whole loop
+    ('lrtable::itemset::Itemset::close', ['exit leaves the loop', 'add on lrtable::itemset::Itemset'],
+     'the closure is the least fixed point of monotone unions into a hash map of bit sets: the order in which kernel items are '
+     'expanded does not change the result; the exits are the end of the work list'),
+    ('lrtable::itemset::Itemset::goto', ['add on lrtable::itemset::Itemset'],
+     'Itemset::add inserts into / ors into the hash-map entry of its own (production, dot) key'),
+    ('lrtable::pager::weakly_compatible', ['exit leaves the loop', 'collect into an ordered Vec'],
+     'a for-all test: false as soon as any key / any pair fails; the Vec of keys only serves to enumerate all pairs (R2.3 checks '
+     'that every pair is examined)'),
+    ('lrtable::stategraph::StateGraph::pp', ['push_str on alloc::string::String', 'write_fmt on alloc::string::String', 'exit leaves the loop', 'position-dependent adaptor'],
+     'pretty-printer: the order in which the items of ONE state are listed in the text; numbering, table contents and parse '
+     'results are not affected'),
+    ('lrtable::statetable::StateTable::new', ['exit leaves the loop'],
+     'the exits return AcceptReduceConflict errors (no table is produced); the cell writes keep the lowest production whatever the '
+     'order. NOT excused: the reduce/reduce conflict list appended to in the same loop'),
+]
+
+
+def r204(facts, res):
+    import c15
+    R = 'R20.4'
+
+    def want(st, h):
+        t = st
+        while t.startswith('&'):
+            t = t[1:].lstrip()
+            if t.startswith('mut '):
+                t = t[4:]
+        args = c15.top_level_args(t)
+        return bool(args) and 'StorageT' in args[0] and h != 'random'
+    n = 0
+    per = {}
+    for body in facts.lib_bodies(CRATES):
+        if body.from_expansion:
+            continue
+        for bb, t, st in c15.sources(body, want):
+            n += 1
+            fn = strip_generics(body.root_parent or body.path)
+            idx = per.get((fn, cname(t)), 0)
+            per[(fn, cname(t))] = idx + 1
+            key = '%s/%s#%d' % (fn, cname(t), idx)
+            verdict, desc, problems = c15.classify(body, facts, bb, t, st)
+            if verdict == 'auto':
+                res.ok(R, key, loc_of(body, bb), 'order-insensitive: ' + desc)
+                continue
+            exc = [e for e in WIDTH_EXC if e[0] == fn]
+            unc = [p for p in problems if not any(nd in p for e in exc for nd in e[1])]
+            if exc and not unc:
+                res.ok(R, key, loc_of(body, bb), 'listed exception: ' + exc[0][2])
+            else:
+                res.bad(R, key, loc_of(body, bb), 'the iteration order of a hash container keyed by StorageT values (it differs between u8, u16 and u32: the keys hash '
+                        'differently) reaches an ordered result: %s' % '; '.join((unc or problems)[:3]),
+                        {'function': body.path, 'container': st, 'problems': problems})
+    res.floor(R, 'iterations over hash containers keyed by StorageT values', n, 8)
+
+
 def run(facts, res):
+    r204(facts, res)
     r201(facts, res)
     r201b(facts, res)
     r202(facts, res)
